@@ -295,6 +295,15 @@ def check_cases(ctx, cases):
                 os.chdir(os.path.dirname(root))
                 spelled = os.path.basename(root) + b"/" * (ci % 2)
                 ctx.count("relative-root")
+            elif ci % 3 == 2 and flt["kind"] != "patterns":
+                # ... and one in three through a symbolic link and back up with "..": the operating system
+                # resolves the link first, so the text of the path cannot be normalised without changing
+                # what it names
+                base_ = os.path.dirname(root)
+                os.makedirs(os.path.join(base_, b"d1", b"d2"), exist_ok=True)
+                os.symlink(os.path.join(b"d1", b"d2"), os.path.join(base_, b"ln"))
+                spelled = os.path.join(base_, b"ln", b"..", b"..", os.path.basename(root)) + b"/" * (ci % 2)
+                ctx.count("root-via-symlink-dotdot")
             try:
                 with fs.shuffled_scandir(lrng), ctx.time_limit(60):
                     d = Directory.from_disk(path=spelled, path_filter=py_filter(flt, spelled), max_content_length=ml)
@@ -323,7 +332,11 @@ def check_cases(ctx, cases):
                         break
                     except (KeyError, ValueError):
                         pass
-                exp, problems = export_obs(d)
+                try:
+                    exp, problems = export_obs(d)
+                except (OSError, ValueError, KeyError, TypeError, AttributeError) as e:
+                    ctx.fail(case, f"exporting the tree that was read (contents with their data) raises {type(e).__name__}: {str(e)[:120]}", "export-raises:" + type(e).__name__)
+                    exp, problems = None, []
                 rec.update(obs=obs, export=exp)
                 for k, what in problems:
                     ctx.fail(case, f"exported objects: {k} {what}", k)
@@ -387,6 +400,8 @@ def check_cases(ctx, cases):
             "skipped": sorted([s[0], s[1]] for s in m["skipped"]),
             "directories": sorted([x[0], x[1]] for x in m["directories"]),
         }
+        if rec["export"] is None:
+            continue  # (the export raised: reported above)
         ie = {k: sorted(v) for k, v in rec["export"].items()}
         if me != ie:
             which = [k for k in me if me[k] != ie[k]]
